@@ -1,5 +1,6 @@
 /- C09 — Float instantiation: `_uinterpolate` (FLAT_FWD_RATES branch, as coded) and the kernels. -/
 import FinVerif.Model.C09
+import FinVerif.Model.C09Boot
 
 namespace FinVerif.Model.C09F
 open FinVerif.Model.C09
@@ -33,5 +34,47 @@ def rpv01F (teff acc : Float) (pay yf lt ld st sv : Array Float) : Float × Floa
 def protF (teff tmat rec : Float) (spy : Nat) (lt ld st sv : Array Float) : Float :=
   let ns := ((tmat - teff) * Float.ofNat spy + 0.5).toUInt64.toNat
   protLegPV opsF (uinterp st sv) (uinterp lt ld) teff tmat rec ns (Float.ofNat ns)
+
+/-! ### object level: `CDS.value` / `risky_pv01` / `prot_leg_pv` / `par_spread` / `premium_leg_pv` / `clean_price` /
+`accrued_interest`, and the bootstrap fold, on the list model of `_uinterpolate` shared with C02 -/
+
+def nanF : Float := 0.0 / 0.0
+
+/-- the contract record from the arrays `CDS.risky_pv01` passes to the kernel; `acc` is the day-count fraction
+previous-coupon-date → step-in of the contract's OWN day count (supplied by the caller) -/
+def mkContract (teff acc tmat cpn notional : Float) (long : Bool) (spy : Nat) (pay yf : Array Float) : Contract Float :=
+  let ns := ((tmat - teff) * Float.ofNat spy + 0.5).toUInt64.toNat
+  { teff := teff, acc := acc, tncd := pay[0]!, yf1 := yf[1]!,
+    tail := (List.range (pay.size - 1)).map fun j => (pay[j + 1]!, yf[j + 1]!),
+    tmat := tmat, nSteps := ns, nf := Float.ofNat ns, cpn := cpn, notional := notional, long := long }
+
+/-- [dirty_rpv01, clean_rpv01, prot_leg_pv, dirty_pv, clean_pv, par_spread, premium_leg_pv, clean_price,
+accrued_interest] -/
+def valF (rec : Float) (c : Contract Float) (lt ld st sv : List Float) : List Float :=
+  let Q := curveFn nanF st sv
+  let Z := curveFn nanF lt ld
+  let r := rpv01Of opsF Q Z c
+  let v := valueOf opsF Q Z rec c
+  let protU := protLegPV opsF Q Z c.teff c.tmat rec c.nSteps c.nf
+  [r.1, r.2, protOf opsF Q Z rec c, v.1, v.2, parSpreadOf opsF Q Z rec c, premiumLegPV c.cpn c.notional r.1,
+   cleanPrice 100.0 c.cpn c.notional protU r.2, accruedInterest c.long c.cpn c.notional c.acc]
+
+/-- replay of `_build_curve` with the values the solver left in the knots supplied by the caller (`knots[i]` for
+pass `i`): the fold body is the model's `bootStep`; reports per pass `x0`, the objective at the supplied value
+and at two probe points, then the objective of every contract on the FINAL curve, then the final values. -/
+def bootReplayF (rec : Float) (lt ld : List Float) (cs : List (Contract Float)) (knots probes : Array Float) : List Float :=
+  let obj := cdsObj opsF nanF lt ld rec
+  let step := fun (acc : (List Float × List Float) × List Float × Nat) (c : Contract Float) =>
+    let (s, out, i) := acc
+    let f := stepObjectiveF obj s c
+    let x0 := s.2.getLastD default
+    let s' := bootStep (fun _ _ => knots[i]!) Contract.tmat obj s c
+    (s', out ++ [x0, f knots[i]!, f probes[2 * i]!, f probes[2 * i + 1]!], i + 1)
+  let (sfin, out, _) := cs.foldl step (([0.0], [1.0]), [], 0)
+  out ++ cs.map (fun c => obj sfin.1 sfin.2 c) ++ sfin.2
+where
+  stepObjectiveF (obj : List Float → List Float → Contract Float → Float) (s : List Float × List Float)
+      (c : Contract Float) : Float → Float :=
+    fun q => obj (s.1 ++ [c.tmat]) (s.2 ++ [q]) c
 
 end FinVerif.Model.C09F
